@@ -134,38 +134,19 @@ Section Phase.
     rewrite (P (map fst _)), (P (map snd _)). reflexivity.
   Qed.
 
-  (* registrations only append to the angle array; other operations leave it alone *)
-  Lemma step_no_register_angles : forall (o : op A) (n : net A),
-    no_register o = true -> angles (snd (step zero o n)) = angles n.
-  Proof.
-    intros o n H. destruct o; simpl in *; try discriminate.
-    - unfold add_constraint. destruct (existsb _ _); reflexivity.
-    - unfold remove_constraint. destruct (negb _); reflexivity.
-    - unfold update_constraint. destruct (negb (nmem name (cnames n))) eqn:E; simpl; auto.
-      unfold add_constraint. destruct (existsb _ _); simpl; unfold remove_constraint; rewrite E; reflexivity.
-  Qed.
-
-  Lemma run_no_register_angles : forall (ops : list (op A)) (n : net A),
-    forallb (no_register (A := A)) ops = true -> angles (run ops n) = angles n.
-  Proof.
-    induction ops as [|o ops IH]; intros n H; simpl; auto.
-    simpl in H. apply andb_true_iff in H. destruct H as [Ho Hops].
-    rewrite IH by exact Hops. apply step_no_register_angles. exact Ho.
-  Qed.
-
   Lemma dotw_all_some : forall (r : list A) col w, dotw (map Some r) col w = Some (lin_sum_w r col w).
   Proof.
     induction r as [|u r IH]; intros col w; simpl; auto.
     destruct col as [|v col]; simpl; auto. destruct w as [|z w]; simpl; auto. rewrite IH. reflexivity.
   Qed.
 
-  (* every station registered exactly once: the phase-aware query never raises ValueError on a schedule of the
-     right height, and every entry is sum_k coeff(current_i, s_k) * X[k][j] * (cos_k, sin_k) *)
-  Theorem ccp_values_unique_registration : forall regs (ops : list (op A)) X C T trig,
-    NoDup (reg_ids regs) -> forallb (no_register (A := A)) ops = true ->
-    List.length (xrows X) = List.length regs ->
-    let n := run (map reg_op regs ++ ops) net0 in
-    let g := grun (map reg_op regs ++ ops) (ghost0 (A := A)) in
+  (* on EVERY reachable network (any registration sequence, repeated ids included): a schedule with one row per
+     station is never refused with ValueError, and every entry is
+     sum_k coeff(current_i, s_k) * X[k][j] * (cos_k, sin_k) *)
+  Theorem ccp_values : forall (ops : list (op A)) X C T trig,
+    let n := run ops net0 in
+    let g := grun ops (ghost0 (A := A)) in
+    List.length (xrows X) = List.length (stations n) ->
     ccp X C T trig n =
     match sel_cols (xw X) T with
     | None => Err "IndexError"%string
@@ -182,28 +163,18 @@ Section Phase.
         else Err "TypeError"%string
     end.
   Proof.
-    intros regs ops X C T trig Hn Hops HX n g.
-    subst n. rewrite (ccp_closed_form _ X C T). set (n := run (map reg_op regs ++ ops) net0).
+    intros ops X C T trig n g HX.
+    subst n. rewrite (ccp_closed_form _ X C T). set (n := run ops net0) in *.
     destruct (sel_cols (xw X) T) as [js|]; auto. cbv zeta.
-    assert (Ha : List.length (angles n) = List.length regs).
-    { unfold n. rewrite run_app, run_no_register_angles by exact Hops.
-      destruct (registration_order zero regs) as (_ & _ & Hang & _). rewrite Hang, map_length. reflexivity. }
-    assert (Hs : List.length (stations n) = List.length regs).
-    { destruct (aligned zero (map reg_op regs ++ ops)) as (As & _).
-      fold n in As. rewrite As, grun_app, (grun_registers zero).
-      destruct (grun_same_set ops (mkGhost (dedup_first [] (reg_ids regs)) false [])
-                  (mkGhost (dedup_first [] (reg_ids regs)) false []) Hops) as (S1 & _); simpl; auto.
-      { intros s. reflexivity. }
-      rewrite S1. simpl. rewrite dedup_first_nodup_id by (auto; intros x _ []).
-      unfold reg_ids. apply map_length. }
+    destruct (arrays_aligned zero ops) as [_ Ha]. fold n in Ha.
     unfold bcast. rewrite Ha, HX, Nat.eqb_refl.
     unfold bweights.
-    assert (Hb : Nat.eqb (List.length regs) 1 && negb (Nat.eqb (List.length regs) 1) = false)
-      by (destruct (Nat.eqb (List.length regs) 1); reflexivity).
+    assert (Hb : Nat.eqb (List.length (stations n)) 1 && negb (Nat.eqb (List.length (stations n)) 1) = false)
+      by (destruct (Nat.eqb (List.length (stations n)) 1); reflexivity).
     rewrite Hb.
-    destruct (aligned zero (map reg_op regs ++ ops)) as (As & _ & Am & _ & Ac). fold n g in As, Am, Ac.
+    destruct (aligned zero ops) as (As & _ & Am & _ & Ac). fold n g in As, Am, Ac.
     rewrite Am. destruct (g_ever g); auto.
-    rewrite ?HX, Hs, Nat.eqb_refl. simpl negb. cbv iota.
+    rewrite ?HX, Nat.eqb_refl. simpl negb. cbv iota.
     f_equal. f_equal.
     - apply map_ext_in. intros i Hi. apply constraint_indices_lt in Hi. rewrite Ac, map_length in Hi.
       apply map_ext. intros j.
@@ -227,27 +198,26 @@ Section Phase.
 End Phase.
 
 (* ------------------------------------------------------------------------------------------ *)
-(* the failing history: a station id registered twice *)
+(* the history that used to fail (a station id registered twice, 76013ed): the arrays stay aligned, the station
+   keeps its first position and takes the voltage / angle of its last registration, and the default query answers *)
 Open Scope Q_scope.
 
 Definition rereg_ops : list (op Q) :=
   [ ORegister 1%nat 208 30; ORegister 2%nat 208 (-30); ORegister 1%nat 240 150;
     OAdd [(1%nat, 1); (2%nat, 1)] 32 (Some "pod"%string) ].
 Definition rereg_X : sched Q := mkSched 2 [[10; 10]; [5; 5]].
-(* cos/sin of 30, -30, 150 degrees to 3 digits; the outcome does not depend on them *)
-Definition rereg_trig : list (Q * Q) := [(866 # 1000, 1 # 2); (866 # 1000, -1 # 2); (-866 # 1000, 1 # 2)].
+(* (cos, sin) of 150 and -30 degrees to 3 digits *)
+Definition rereg_trig : list (Q * Q) := [(-866 # 1000, 1 # 2); (866 # 1000, -1 # 2)].
 
-Lemma rereg_refuted :
-  exists (ops : list (op Q)) (X : sched Q) (trig : list (Q * Q)),
-    let n := run 0 ops net0 in
-    g_ever (grun ops ghost0) = true /\                          (* a constraint exists *)
-    List.length (xrows X) = List.length (stations n) /\          (* one schedule row per station *)
-    Forall (fun r => List.length r = xw X) (xrows X) /\           (* rectangular *)
-    List.length trig = List.length (angles n) /\
-    qcc X None None n = Ok [[Some (1 * 10 + (1 * 5 + 0)); Some (1 * 10 + (1 * 5 + 0))]] /\   (* linear=True answers *)
-    qccp X None None trig n = Err "ValueError"%string.           (* the default query raises *)
+Lemma rereg_example :
+  let n := run 0 rereg_ops net0 in
+  stations n = [1; 2]%nat /\
+  list_eqb Qeq_bool (volts n) [240; 208] = true /\ list_eqb Qeq_bool (angles n) [150; -30] = true /\
+  qcc rereg_X None None n = Ok [[Some (1 * 10 + (1 * 5 + 0)); Some (1 * 10 + (1 * 5 + 0))]] /\
+  (exists re im, qccp rereg_X None None rereg_trig n = Ok (re, im) /\
+     qmatrix_eqb re [[Some (-433 # 100); Some (-433 # 100)]] = true /\
+     qmatrix_eqb im [[Some (5 # 2); Some (5 # 2)]] = true).
 Proof.
-  exists rereg_ops, rereg_X, rereg_trig. vm_compute.
-  repeat split; try reflexivity.
-  repeat constructor.
+  vm_compute. repeat split; try reflexivity.
+  eexists; eexists. repeat split; reflexivity.
 Qed.
